@@ -285,10 +285,13 @@ void MathExplorer::run_fn(const MFun& f)
 
     struct Scratch
     {
-        Buf a, b, out0, out1, ref, cls, ticks;
+        Buf a, b, out0, out1, ref, cls, ticks, flo, fhi;
     };
     std::vector<Scratch> scr((size_t)nthreads);
     const int norders = 2;
+    std::vector<std::atomic<char>> kf_seen(math_findings().size() * impls.size());
+    for (auto& k : kf_seen)
+        k = 0;
     parallel_for(nblocks * norders, nthreads, [&](int t, uint64_t job)
                  {
         if (expired)
@@ -306,6 +309,8 @@ void MathExplorer::run_fn(const MFun& f)
         T* b = (T*)X.b.need(BLK * sizeof(T));
         long double* ref = (long double*)X.ref.need(BLK * sizeof(long double));
         uint8_t* cls = (uint8_t*)X.cls.need(BLK);
+        T* flo = (T*)X.flo.need(BLK * sizeof(T));
+        T* fhi = (T*)X.fhi.need(BLK * sizeof(T));
         // ---- operands of this block ----
         const uint64_t nb16 = N / 16; // strided order: lane j of batch i reads point i + j * N/16
         for (size_t e = 0; e < n; ++e)
@@ -358,8 +363,36 @@ void MathExplorer::run_fn(const MFun& f)
                 r = f.arity == 1 ? f.q1((long double)a[e]) : f.q2((long double)a[e], (long double)b[e]);
             ref[e] = r;
             cls[e] = (r != r) ? 0 : 1;
+            // fast acceptance interval [flo, fhi] in T: a result inside it is within the bound (exact same criterion as judge())
+            flo[e] = (T)1;
+            fhi[e] = (T)0; // empty interval: slow path
+            const long double ar = r < 0 ? -r : r;
+            if (cls[e] == 1 && ar >= 4 * mlim<T>::MIN && ar <= mlim<T>::MAX / 4)
+            {
+                const long double u = ulp_of<T>(f.rule == R_LGAMMA ? (ar > 1 ? ar : 1.0L) : ar);
+                const long double B = bound_of<T>(f, (long double)a[e], (long double)b[e], r);
+                long double lo = r - B * u, hi = r + B * u;
+                T l = (T)lo, h = (T)hi;
+                if ((long double)l < lo)
+                    l = std::nextafter(l, std::numeric_limits<T>::infinity());
+                if ((long double)h > hi)
+                    h = std::nextafter(h, -std::numeric_limits<T>::infinity());
+                if (std::isfinite(l) && std::isfinite(h))
+                {
+                    flo[e] = l;
+                    fhi[e] = h;
+                }
+            }
+            else if (cls[e] == 1 && f.rule == R_LGAMMA && ar < 4 * mlim<T>::MIN)
+            {
+                // lgamma near its zeros: error in ulp of 1
+                const long double u = ulp_of<T>(1.0L), B = bound_of<T>(f, (long double)a[e], 0, r);
+                flo[e] = (T)(r - B * u * 0.999L);
+                fhi[e] = (T)(r + B * u * 0.999L);
+            }
         }
         ST.points += n;
+        std::vector<uint64_t> kf_local(math_findings().size() * impls.size(), 0);
         // ---- every architecture ----
         for (size_t ii = 0; ii < impls.size(); ++ii)
         {
@@ -466,6 +499,8 @@ void MathExplorer::run_fn(const MFun& f)
                     continue; // C14's business
                 }
                 ++judged;
+                if (y[e] >= flo[e] && y[e] <= fhi[e] && (e & 63) != 17)
+                    continue; // inside the acceptance interval (every 64th point still takes the full path for the error statistics)
                 Judge J = judge<T>(f, (long double)a[e], (long double)b[e], ref[e], y[e]);
                 if (J.v == V_PASS)
                 {
@@ -484,17 +519,15 @@ void MathExplorer::run_fn(const MFun& f)
                     int pfi = classify_math(pv, f, (long double)a[e], (long double)b[e], ref[e], (long double)y[e], J);
                     if (pfi >= 0 && known_open.count(math_findings()[(size_t)pfi].id))
                     {
-                        const std::string fidp = math_findings()[(size_t)pfi].id;
-                        std::lock_guard<std::mutex> g(mu);
-                        ++total;
-                        ++by_finding[fidp];
-                        uint64_t& c = by_key[std::string(f.name) + "|" + xv_type_name[elem] + "|" + arch + "|" + fidp];
-                        if (++c > 1)
+                        // counted per block without locking; the first point of each (function, type, architecture, class)
+                        // still goes through MPFR and is recorded in detail below
+                        uint64_t& lc = kf_local[(size_t)pfi * impls.size() + ii];
+                        if (lc > 0 || kf_seen[(size_t)pfi * impls.size() + ii].load(std::memory_order_relaxed))
+                        {
+                            ++lc;
                             continue;
-                        // the first point of each (function, type, architecture, class) is recorded in detail below
-                        --total;
-                        --by_finding[fidp];
-                        --c;
+                        }
+                        kf_seen[(size_t)pfi * impls.size() + ii] = 1;
                     }
                 }
                 ++ST.mpfr_checked;
@@ -567,6 +600,27 @@ void MathExplorer::run_fn(const MFun& f)
                     s.observed = hex(to_bits<T>(y[e]), sizeof(T));
                     samples.push_back(s);
                 }
+            }
+        }
+        // fold the block's known-finding counts
+        {
+            bool any = false;
+            for (auto c : kf_local)
+                any = any || c;
+            if (any)
+            {
+                std::lock_guard<std::mutex> g(mu);
+                for (size_t fi = 0; fi < math_findings().size(); ++fi)
+                    for (size_t ii = 0; ii < impls.size(); ++ii)
+                    {
+                        uint64_t c = kf_local[fi * impls.size() + ii];
+                        if (!c)
+                            continue;
+                        const std::string fidp = math_findings()[fi].id;
+                        total += c;
+                        by_finding[fidp] += c;
+                        by_key[std::string(f.name) + "|" + xv_type_name[elem] + "|" + mods[(size_t)impls[ii].module].arch + "|" + fidp] += c;
+                    }
             }
         } });
     states += N * norders;
